@@ -452,22 +452,55 @@ def zipFnFinal : Dict → List (String × Param) → Dict
   | kv0 :: P0, kv :: L => fnFinal kv0 kv :: zipFnFinal P0 L
   | _, _ => []
 
-theorem fn_merge_typ (cfg : Cfg) (t0 : Option String) (t : String) (h : fnTypOK cfg t0 (some t) = true)
-    (p0 : Param) (hp : p0.typ = t0) (o : Param) (ho : o.typ = if cfg.typeAnnotations then some t else none) :
-    (if o.typ != none && (p0.typ == none || (match p0.typ, o.typ with | some tt, some ot => isSimple tt && !isSimple ot | _, _ => false))
-      then { p0 with typ := o.typ } else p0).typ = some t := by
+theorem ite_proj {α β : Type} (f : α → β) (c : Prop) [Decidable c] (a b : α) (x : β) (h1 : f a = x) (h2 : f b = x) :
+    f (if c then a else b) = x := by
+  by_cases h : c <;> simp [h, h1, h2]
+
+theorem mpDoc_typ (o p : Param) : (mpDoc o p).typ = p.typ := by unfold mpDoc; exact ite_proj Param.typ _ _ _ _ rfl rfl
+theorem mpDoc_default (o p : Param) : (mpDoc o p).default = p.default := by unfold mpDoc; exact ite_proj Param.default _ _ _ _ rfl rfl
+theorem mpTyp_doc (o p : Param) : (mpTyp o p).doc = p.doc := by unfold mpTyp; exact ite_proj Param.doc _ _ _ _ rfl rfl
+theorem mpTyp_default (o p : Param) : (mpTyp o p).default = p.default := by unfold mpTyp; exact ite_proj Param.default _ _ _ _ rfl rfl
+theorem mpDefault_doc (o p : Param) : (mpDefault o p).doc = p.doc := by unfold mpDefault; exact ite_proj Param.doc _ _ _ _ rfl rfl
+theorem mpDefault_typ (o p : Param) : (mpDefault o p).typ = p.typ := by unfold mpDefault; exact ite_proj Param.typ _ _ _ _ rfl rfl
+
+theorem ite_apply' {α β : Type} (f : α → β) (c : Prop) [Decidable c] (a b : α) : f (if c then a else b) = if c then f a else f b := by
+  by_cases h : c <;> simp [h]
+
+theorem mergePresent_doc (o p : Param) :
+    (mergePresent o p).doc = if falsyDoc p.doc && !falsyDoc o.doc then o.doc else p.doc := by
+  unfold mergePresent
+  rw [mpDefault_doc, mpTyp_doc]
+  unfold mpDoc
+  rw [ite_apply' Param.doc]
+
+theorem mergePresent_typ (o p : Param) :
+    (mergePresent o p).typ = if o.typ != none && (p.typ == none || (match p.typ, o.typ with
+        | some tt, some ot => isSimple tt && !isSimple ot | _, _ => false)) then o.typ else p.typ := by
+  unfold mergePresent
+  rw [mpDefault_typ]
+  unfold mpTyp
+  rw [ite_apply' Param.typ, mpDoc_typ]
+  rfl
+
+theorem mergePresent_default (o p : Param) :
+    (mergePresent o p).default = if isNoneLike p.default && o.default != none then o.default else p.default := by
+  unfold mergePresent mpDefault
+  rw [ite_apply' Param.default, mpTyp_default, mpDoc_default]
+
+theorem fn_merge_typ (cfg : Cfg) (t0 : Option String) (t : String) (h : fnTypOK cfg t0 (some t) = true) :
+    (if (if cfg.typeAnnotations then some t else none) != none && (t0 == none || (match t0, (if cfg.typeAnnotations then some t else none) with
+        | some tt, some ot => isSimple tt && !isSimple ot | _, _ => false)) then (if cfg.typeAnnotations then some t else none) else t0) = some t := by
   unfold fnTypOK at h
   by_cases hta : cfg.typeAnnotations = true
-  · simp only [hta, ↓reduceIte, Bool.or_eq_true, beq_iff_eq] at h ho
-    rw [ho, hp]
+  · simp only [hta, ↓reduceIte, Bool.or_eq_true, beq_iff_eq] at h ⊢
     rcases h with (h | h) | h
     · simp [h]
-    · simp [h]
+    · subst h; by_cases hs : isSimple t = true <;> simp [hs]
     · cases t0 with
       | none => simp
       | some a => simp only at h; simp [h]
-  · simp only [hta, Bool.false_eq_true, ↓reduceIte, beq_iff_eq] at h ho
-    rw [ho, hp, h]; simp
+  · simp only [hta, Bool.false_eq_true, ↓reduceIte, beq_iff_eq] at h ⊢
+    simp [h]
 
 theorem fn_entry (env : Env) (cfg : Cfg) (kv0 kv : String × Param) (hp : okParam true kv = true) (he : fnEntryOK env cfg kv0 kv = true) :
     setNameAndType env false (kv0.1, mergePresent (sigOf cfg kv).2 kv0.2) = .ok (fnFinal kv0 kv) ∧
@@ -493,22 +526,74 @@ theorem fn_entry (env : Env) (cfg : Cfg) (kv0 kv : String × Param) (hp : okPara
     · simp only [userD, h, Option.some.injEq] at hd; subst hd; exact hok
   have hflag : (p.default.isNone || isNoneStrD p.default) = ((userD p).isNone || isNoneStrD ((userD p).map .val)) := by
     rcases hdflt with h | ⟨d', h, _⟩ <;> simp [userD, h]
-  -- the merged entry
-  have hmt : (mergePresent (sigOf cfg (n0, p)).2 p0).typ = some t ∧ (mergePresent (sigOf cfg (n0, p)).2 p0).doc = p0.doc ∧
-      (mergePresent (sigOf cfg (n0, p)).2 p0).default =
-        (if isNoneLike p0.default then some (.node (fnDefOf (n0, p)).reparse) else p0.default) := by
-    have h1 : ∀ q : Param, (if falsyDoc p0.doc && !falsyDoc (sigOf cfg (n0, p)).2.doc then { p0 with doc := (sigOf cfg (n0, p)).2.doc } else p0) = p0 := by
-      intro _; simp [sigOf, falsyDoc]
-    unfold mergePresent
-    simp only [h1 p0]
-    have htt := fn_merge_typ cfg p0.typ t htypok p0 rfl (sigOf cfg (n0, p)).2 (by simp [sigOf, htyp])
-    refine ⟨?_, ?_, ?_⟩
-    · by_cases hc : isNoneLike (if (sigOf cfg (n0, p)).2.typ != none && (p0.typ == none || (match p0.typ, (sigOf cfg (n0, p)).2.typ with
-          | some tt, some ot => isSimple tt && !isSimple ot | _, _ => false)) then { p0 with typ := (sigOf cfg (n0, p)).2.typ } else p0).default = true <;>
-        simp only [hc, sigOf, bne_iff_ne, ne_eq, reduceCtorEq, not_false_eq_true, Bool.and_true, Bool.false_eq_true, Bool.false_and, ↓reduceIte] <;>
-        exact htt
-    · split <;> split <;> rfl
-    · split <;> simp [sigOf] <;> split <;> simp_all
-  sorry
+  -- the merged entry, field by field
+  have hmdoc : (mergePresent (sigOf cfg (n0, p)).2 p0).doc = p0.doc := by
+    rw [mergePresent_doc]; simp [sigOf, falsyDoc]
+  have hmtyp : (mergePresent (sigOf cfg (n0, p)).2 p0).typ = some t := by
+    rw [mergePresent_typ]
+    simp only [sigOf, htyp]
+    exact fn_merge_typ cfg p0.typ t htypok
+  have hmdef : (mergePresent (sigOf cfg (n0, p)).2 p0).default =
+      if isNoneLike p0.default then some (.node (fnDefOf (n0, p)).reparse) else p0.default := by
+    rw [mergePresent_default]; simp [sigOf]
+  have heta : mergePresent (sigOf cfg (n0, p)).2 p0 =
+      { doc := p0.doc, typ := some t, default := if isNoneLike p0.default then some (.node (fnDefOf (n0, p)).reparse) else p0.default } := by
+    rw [← hmdoc, ← hmtyp, ← hmdef]
+  constructor
+  · rw [heta]
+    by_cases hnl : isNoneLike p0.default = true
+    · simp only [hnl, ↓reduceIte]
+      have := setNameAndType_fn env false n0 p0.doc t (userD p) hnk ht hud
+        (fun d0 h => by have := hquiet; simp only [h] at this; rw [hflag] at this; exact this)
+      simp only [fnDefOf]
+      rw [this]
+      simp [fnFinal, htyp]
+    · -- a default read from the docstring prose: it is the interface's default
+      simp only [hnl, Bool.false_eq_true, ↓reduceIte]
+      unfold fnDefaultOK at hdefok
+      simp only [hnl, Bool.false_or, beq_iff_eq] at hdefok
+      rcases hdflt with h | ⟨d, h, hok⟩
+      · rw [hdefok, h] at hnl; simp [isNoneLike] at hnl
+      · have hdn : d.inNoneTypes = false := by
+          rw [hdefok, h] at hnl; simpa [isNoneLike, DVal.inNoneTypes] using hnl
+        rw [hdefok, h]
+        have := setNameAndType_ok env false n0 p0.doc t (some d) hnk (okTyp_googleOpt ht) (fun d' hd' => by cases hd'; exact okDefault_okSnt hok)
+          (fun d0 hd0 => by have := hquiet; simp only [hd0] at this; simpa [h, isNoneStrD] using this)
+        simp only [Option.map_some] at this
+        rw [this]
+        simp [fnFinal, htyp, userD, h, fnBack, hdn]
+  · simp only [fnFinal, normEntry, Param.view, docAfter_view, hview]
+    rcases hdflt with h | ⟨d, h, hok⟩
+    · simp [h, userD, fnBack]
+    · simp [h, userD, fnBack_some hok]
+
+theorem fn_entries (env : Env) (cfg : Cfg) : ∀ (P0 : Dict) (L : List (String × Param)),
+    forall2 (fnEntryOK env cfg) P0 L = true → (∀ kv ∈ L, okParam true kv = true) →
+    (zipMerge (L.map (sigOf cfg)) P0).mapM (setNameAndType env false) = .ok (zipFnFinal P0 L) ∧
+      (zipFnFinal P0 L).map (fun kv => kv.2.view kv.1) = (L.map normEntry).map (fun kv => kv.2.view kv.1)
+  | [], [], _, _ => by simp [zipMerge, zipFnFinal, pure, Except.pure]
+  | [], _ :: _, h, _ => by simp [forall2] at h
+  | _ :: _, [], h, _ => by simp [forall2] at h
+  | kv0 :: P0, kv :: L, h, hok => by
+    simp only [forall2, Bool.and_eq_true] at h
+    obtain ⟨h1, h2⟩ := fn_entry env cfg kv0 kv (hok kv (List.mem_cons_self ..)) h.1
+    obtain ⟨r1, r2⟩ := fn_entries env cfg P0 L h.2 (fun x hx => hok x (List.mem_cons_of_mem _ hx))
+    constructor
+    · simp only [List.map_cons, zipMerge, zipFnFinal, List.mapM_cons, h1, r1, bind, Except.bind, pure, Except.pure]
+    · simp only [zipFnFinal, List.map_cons, h2, r2]
+
+theorem fn_aligned (env : Env) (cfg : Cfg) : ∀ (P0 : Dict) (L : List (String × Param)),
+    forall2 (fnEntryOK env cfg) P0 L = true → aligned (L.map (sigOf cfg)) P0 = true
+  | [], [], _ => rfl
+  | [], _ :: _, h => by simp [forall2] at h
+  | _ :: _, [], h => by simp [forall2] at h
+  | kv0 :: P0, kv :: L, h => by
+    simp only [forall2, Bool.and_eq_true] at h
+    simp only [List.map_cons, aligned, Bool.and_eq_true]
+    refine ⟨?_, fn_aligned env cfg P0 L h.2⟩
+    have := h.1
+    unfold fnEntryOK at this
+    simp only [Bool.and_eq_true, beq_iff_eq] at this
+    simp [sigOf, this.1.1.1]
 
 end Iface
